@@ -5,6 +5,7 @@ F_DONT_COMPRESS = 1
 F_DONT_HASH = 2
 F_DONT_FRAGMENT = 4
 F_DONT_DEDUP = 8
+F_IGNORE_SPARSE = 16
 
 
 def hexs(b):
@@ -100,6 +101,8 @@ def _flags(rnd):
         fl |= F_DONT_FRAGMENT
     if rnd.random() < 0.12:
         fl |= F_DONT_DEDUP
+    if rnd.random() < 0.12:
+        fl |= F_IGNORE_SPARSE
     return fl
 
 
@@ -113,7 +116,9 @@ def gen_frag_state_case(rnd):
     distinct = []
     for _ in range(rnd.randint(3, 10)):
         k = rnd.random()
-        if k < 0.3:
+        if k < 0.1:
+            distinct.append(bytes(n))
+        elif k < 0.3:
             distinct.append(bytes([rnd.randint(1, 3)]) * n)
         else:
             base = list(range(1, n + 1))
@@ -128,6 +133,8 @@ def gen_frag_state_case(rnd):
             fl |= F_DONT_DEDUP
         if rnd.random() < 0.08:
             fl |= F_DONT_COMPRESS
+        if rnd.random() < 0.1:
+            fl |= F_IGNORE_SPARSE
         d = rnd.choice(distinct)
         if rnd.random() < 0.15:
             d = bytes(rnd.randint(0, 255) for _ in range(rnd.randint(1, bs - 1)))
